@@ -89,6 +89,11 @@ def parse_font_families(attr_value: str) -> typing.List[str]:
   if len(rslt) == 0:
     raise ValueError("Bad syntax")
 
+  # only separators can remain between the family names, e.g. not an unbalanced quote
+
+  if _FONT_FAMILY_PATTERN.sub("", attr_value).strip(" ,") != "":
+    raise ValueError("Bad syntax")
+
   return rslt
 
 def serialize_font_family(font_family: typing.Tuple[typing.Union[str, styles.GenericFontFamilyType], ...]):
